@@ -1093,6 +1093,9 @@ class Expression(Expr):
                 return
 
             if value is None:
+                if index < 0:
+                    # a position counted from the end: the elements after it are the ones to re-index
+                    index += len(expressions)
                 expressions.pop(index)
                 for v in expressions[index:]:
                     v.index = v.index - 1
